@@ -10,4 +10,4 @@ echo "== pure =="
 (cd $S && PYTHONPATH=$S /venv/bin/python -m pytest -q -p no:cacheprovider --timeout=900 asynq 2>&1 | tail -4)
 rm -rf $S
 echo "== compiled (rebuild /repo in place) =="
-(cd /repo && /venv/bin/python setup.py build_ext --inplace -j 16 >/var/tmp/asynq-repo-build.log 2>&1 && rm -rf build && /venv/bin/python -m pytest -q -p no:cacheprovider --timeout=900 asynq 2>&1 | tail -4)
+(cd /repo && /venv/bin/python setup.py build_ext --inplace --force -j 16 >/var/tmp/asynq-repo-build.log 2>&1 && rm -rf build && /venv/bin/python -m pytest -q -p no:cacheprovider --timeout=900 asynq 2>&1 | tail -4)
